@@ -266,6 +266,39 @@ both(_).
 			}
 		}
 	}
+	// call/1 converts its argument to a body WHEN IT RUNS: a conjunct that is still a variable when the clause is compiled and
+	// is bound to a cut (or to a conjunction with a cut) by then cuts the goals to its left inside that call/1, and nothing
+	// outside. \+/1 (and the condition of if-then-else, and once/1) is solved at most once: later answers of its goal are never
+	// computed, whatever they would log, raise or loop on.
+	{
+		late := term.MustProgram(`
+dm(1). dm(2). dm(3).
+dn(a). dn(b).
+gen_then(G, X) :- call((dm(X), G)).
+gen_mid(G, X, Y) :- call((dm(X), G, dn(Y))).
+gen_first(G, X) :- call((G, dm(X))).
+two_late(G, H, X) :- call((dm(X), G, H)).
+outer(G, X, Y) :- dn(Y), gen_then(G, X).
+neg_log :- \+ (dm(X), w(seen(X))).
+neg_err :- \+ (dmx(X), _ is X + 1).
+dmx(1). dmx(a).
+neg_gen :- \+ dgen(_).
+dgen(0).
+dgen(N) :- dgen(M), N is M + 1.
+once_log(X) :- once((dm(X), w(o(X)))).
+ite_log(X) :- ( dm(X), w(c(X)) -> true ; X = none ).
+`)
+		for _, q := range []string{
+			"gen_then(!, X)", "gen_then((X >= 2, !), X)", "gen_then(true, X)", "gen_then((X >= 2), X)", "dn(Y), gen_then(!, X)", "outer(!, X, Y)", "outer((X > 1, !), X, Y)",
+			"gen_mid(!, X, Y)", "gen_mid((X >= 2, !), X, Y)", "gen_first(!, X)", "two_late(true, !, X)", "two_late((X > 1), !, X)", "two_late(!, fail, X)",
+			"G = !, call((dm(X), G))", "G = (X >= 2, !), call((dm(X), G)), dn(Y)", "dm(Z), gen_then(!, X)", "findall(X, gen_then(!, X), L)", "findall(X-Y, gen_mid((X >= 2, !), X, Y), L)",
+			"neg_log", "\\+ neg_log", "dm(Y), \\+ (dm(X), X >= Y, w(s(Y, X)))", "neg_err", "\\+ neg_err", "neg_gen", "\\+ neg_gen", "dn(Y), \\+ \\+ (dm(X), w(t(X)))",
+			"once_log(X)", "dn(Y), once_log(X)", "ite_log(X)", "dn(Y), ite_log(X)", "\\+ (dmx(X), w(X), X == a)", "catch(\\+ (dmx(X), _ is X + 1), _, w(caught))",
+		} {
+			t, nv, qv := parseQuery(q)
+			metas = append(metas, &DiffMeta{Program: late, Query: t, NVars: nv, QVars: qv, Max: 12, Family: "late-bound-cut-and-solved-once"})
+		}
+	}
 	items := prepareDiffItems(metas, 60000, ref.Options{})
 	for _, it := range items {
 		var m c01Meta
